@@ -15,6 +15,7 @@ import (
 	"sort"
 	"strings"
 
+	"github.com/anz-bank/sysl/language/go/pkg/relgom"
 	"github.com/anz-bank/sysl/pkg/arrai/relmod"
 	"github.com/anz-bank/sysl/pkg/cmdutils"
 	"github.com/anz-bank/sysl/pkg/database"
@@ -32,6 +33,7 @@ import (
 	"github.com/anz-bank/sysl/pkg/sysl"
 	"github.com/anz-bank/sysl/pkg/syslutil"
 	"github.com/anz-bank/sysl/pkg/syslwrapper"
+	"github.com/anz-bank/sysl/pkg/transforms"
 	"github.com/sirupsen/logrus"
 	"github.com/spf13/afero"
 )
@@ -47,6 +49,20 @@ type input struct {
 	Apps    []string          `json:"apps,omitempty"`  // app names in declaration order
 	Old     string            `json:"old,omitempty"`   // previous version (db delta)
 	Files   map[string]string `json:"files,omitempty"` // further source files next to m.sysl (imported by it)
+	Ties    *tieMeta          `json:"-"`               // line-tie inputs: what is declared on which line
+}
+
+type nameLine struct {
+	Name string
+	Line int
+}
+
+// tieMeta: the tables of the tie application and the columns of each table with the source line of the declaration
+// (the same in both files)
+type tieMeta struct {
+	App    string
+	Tables []nameLine
+	Cols   map[string][]nameLine
 }
 
 type generator struct {
@@ -288,6 +304,76 @@ func relmodGen(m *sysl.Module, in *input) (string, error) {
 	return string(b), err
 }
 
+// ---- code generators ----
+
+// memFSW collects what a code generator writes (codegen.FileSystemWriter)
+type memFSW struct{ files map[string]*bytes.Buffer }
+type bufCloser struct{ *bytes.Buffer }
+
+func (bufCloser) Close() error { return nil }
+func (w *memFSW) Create(name string) (io.WriteCloser, error) {
+	b := &bytes.Buffer{}
+	w.files[name] = b
+	return bufCloser{b}, nil
+}
+
+// relgomGen: language/go/cmd/relgom (Go model library of one application) through relgom.Generate, which parses the
+// source itself; run for the first two applications that declare a table
+func relgomGen(_ *sysl.Module, in *input) (string, error) {
+	fs := afero.NewMemMapFs()
+	afero.WriteFile(fs, "m.sysl", []byte(in.Text), 0o644)
+	for n, c := range in.Files {
+		afero.WriteFile(fs, n, []byte(c), 0o644)
+	}
+	out := map[string]string{}
+	n := 0
+	for _, appName := range realApps(in) {
+		if n >= 2 {
+			break
+		}
+		n++
+		w := &memFSW{files: map[string]*bytes.Buffer{}}
+		err := func() (err error) {
+			defer func() {
+				if r := recover(); r != nil {
+					err = fmt.Errorf("panic: %v", r)
+				}
+			}()
+			return relgom.Generate(w, fs, "m.sysl", appName)
+		}()
+		if err != nil {
+			// relgom supports applications made of tables only and stops at the first other type it meets while
+			// ranging over the type map: WHICH error comes first is not output (assumption of the property)
+			out[appName] = "error"
+			continue
+		}
+		for f, b := range w.files {
+			out[appName+"/"+f] = b.String()
+		}
+	}
+	return canon(out), nil
+}
+
+// templateGen: `sysl template` (pkg/transforms + pkg/eval) with the harness's own text template, the way
+// cmd/sysl/cmd_template.go drives it
+func templateGen(m *sysl.Module, in *input) (string, error) {
+	fs := afero.NewMemMapFs()
+	afero.WriteFile(fs, "tmpl.sysl", []byte(textTemplate), 0o644)
+	tx, name, err := parse.LoadAndGetDefaultApp("tmpl.sysl", fs, parse.NewParser())
+	if err != nil {
+		return "", err
+	}
+	t, err := transforms.NewWorker(tx, name, "start")
+	if err != nil {
+		return "", err
+	}
+	out := map[string]string{}
+	for f, v := range t.Apply(m, realApps(in)...) {
+		out[f] = v.GetS()
+	}
+	return canon(out), nil
+}
+
 func mermaidGen(which string) func(m *sysl.Module, in *input) (string, error) {
 	return func(m *sysl.Module, in *input) (string, error) {
 		apps := realApps(in)
@@ -376,6 +462,8 @@ var generators = []generator{
 	{"db:create", "sysl", dbCreate, false},
 	{"db:delta", "sysl-delta", dbDelta, true},
 	{"relmod", "sysl", relmodGen, true},
+	{"codegen:relgom", "sysl", relgomGen, true},
+	{"template:text", "sysl", templateGen, false},
 	{"import:openapi3", "openapi3", importGen("openapi3"), true},
 	{"import:swagger", "swagger", importGen("swagger"), false},
 	{"import:xsd", "xsd", importGen("xsd"), false},
